@@ -25,6 +25,7 @@ Definition parse_fitem (r : list str) : fitem :=
               else if str_eqb k (s2l "M") then KMan else KData in
   let sk := nth_s r 2 in
   let src := if str_eqb sk (s2l "R") then SReg (digits_val (nth_s r 3)) (digits_val (nth_s r 4)) (nth_s r 5)
+             else if str_eqb sk (s2l "K") then SLink (nth_s r 5) (optN (nth_s r 4))
              else if str_eqb sk (s2l "M") then SMissing else SOther in
   mkFitem kind src (nth_s r 6) (P (nth_s r 7)) (optN (nth_s r 8)) (nth_s r 9)
           (optS (nth_s r 10) (nth_s r 11)) (flag (nth_s r 12)).
@@ -50,7 +51,10 @@ Definition parse_wstep (r : list str) : wstep :=
   mkWstep rel (digits_val (nth_s r 2))
     (map (fun it => let q := split_on 3 it in (nth_s q 0, digits_val (nth_s q 1))) (items (nth_s r 3)))
     (map (fun it => let q := split_on 3 it in
-                    (nth_s q 0, (digits_val (nth_s q 1), digits_val (nth_s q 2), nth_s q 3))) (items (nth_s r 4))).
+                    (nth_s q 0,
+                     if str_eqb (nth_s q 4) (s2l "L") then SLink (nth_s q 3) (Some (digits_val (nth_s q 2)))
+                     else if str_eqb (nth_s q 4) (s2l "X") then SLink (nth_s q 3) None
+                     else SReg (digits_val (nth_s q 1)) (digits_val (nth_s q 2)) (nth_s q 3))) (items (nth_s r 4))).
 
 (* S install_path mode sub tagp tag excl_files excl_dirs, followed by its W records *)
 Definition sitems_of (recs : list (list str)) : list sitem :=
